@@ -47,6 +47,41 @@ WRAPPER_FORMS = {
 }
 
 
+# canonical bodies of the ProductSpaceUfuncs wrappers (wrap_ufunc_productspace)
+POWER_WRAPPER_FORMS = {
+    ("if out is None:\n"
+     "    result = [getattr(x.ufuncs, name)(**kwargs) for x in self.elem]\n"
+     "    return self.elem.space.element(result)\n"
+     "else:\n"
+     "    for x, out_x in zip(self.elem, out):\n"
+     "        getattr(x.ufuncs, name)(out=out_x, **kwargs)\n"
+     "    return out"): ('PLegacyRule.mapOrInto', 'self, out=None, **kwargs'),
+    ("if out1 is None:\n"
+     "    out1 = self.elem.space.element()\n"
+     "if out2 is None:\n"
+     "    out2 = self.elem.space.element()\n"
+     "for x, out1_x, out2_x in zip(self.elem, out1, out2):\n"
+     "    getattr(x.ufuncs, name)(out=(out1_x, out2_x), **kwargs)\n"
+     "return (out1, out2)"): ('PLegacyRule.twoOut', 'self, out1=None, out2=None, **kwargs'),
+    ("if x2 in self.elem.space:\n"
+     "    if out is None:\n"
+     "        result = [getattr(x.ufuncs, name)(x2p, **kwargs) for x, x2p in "
+     "zip(self.elem, x2)]\n"
+     "        return self.elem.space.element(result)\n"
+     "    else:\n"
+     "        for x, x2p, outp in zip(self.elem, x2, out):\n"
+     "            getattr(x.ufuncs, name)(x2p, out=outp, **kwargs)\n"
+     "        return out\n"
+     "elif out is None:\n"
+     "    result = [getattr(x.ufuncs, name)(x2, **kwargs) for x in self.elem]\n"
+     "    return self.elem.space.element(result)\n"
+     "else:\n"
+     "    for x, outp in zip(self.elem, out):\n"
+     "        getattr(x.ufuncs, name)(x2, out=outp, **kwargs)\n"
+     "    return out"): ('PLegacyRule.binary', 'self, x2, out=None, **kwargs'),
+}
+
+
 def _const_int(node, var):
     """`n_in == 1` -> 1"""
     if isinstance(node, ast.Compare) and len(node.ops) == 1 and isinstance(node.ops[0], ast.Eq) \
@@ -156,6 +191,62 @@ def extract(src):
     return raw, rules, reds
 
 
+def extract_power(src):
+    """wrap_ufunc_productspace and ProductSpaceUfuncs.sum/prod/min/max."""
+    tree = ast.parse(src)
+    wrap = cls = None
+    for node in tree.body:
+        if isinstance(node, ast.FunctionDef) and node.name == 'wrap_ufunc_productspace':
+            wrap = node
+        if isinstance(node, ast.ClassDef) and node.name == 'ProductSpaceUfuncs':
+            cls = node
+    if wrap is None or cls is None:
+        raise ExtractionError('wrap_ufunc_productspace / ProductSpaceUfuncs not found')
+    loops = [n for n in tree.body if isinstance(n, ast.For)]
+    if not any(_u(l).startswith('for name, n_in, n_out, doc in UFUNCS:') and
+               'method = wrap_ufunc_productspace(name, n_in, n_out, doc)' in _u(l) and
+               'setattr(ProductSpaceUfuncs, name, method)' in _u(l) for l in loops):
+        raise ExtractionError('ProductSpaceUfuncs registration loop changed')
+    body = _strip_doc(wrap.body)
+    tail = [_u(s) for s in body[1:]]
+    if tail != ['wrapper.__name__ = wrapper.__qualname__ = name', 'wrapper.__doc__ = doc',
+                'return wrapper']:
+        raise ExtractionError('wrap_ufunc_productspace tail changed')
+    rules = []
+    outer, els = _branches([body[0]], 'n_in')
+    if [_u(s) for s in els] != ['raise NotImplementedError']:
+        raise ExtractionError('power n_in else branch changed')
+    for n_in, b in outer:
+        inner, els2 = _branches(b, 'n_out')
+        if [_u(s) for s in els2] != ['raise NotImplementedError']:
+            raise ExtractionError('power n_out else branch changed')
+        for n_out, bb in inner:
+            if len(bb) != 1 or not isinstance(bb[0], ast.FunctionDef) or bb[0].name != 'wrapper':
+                raise ExtractionError('power branch ({},{})'.format(n_in, n_out))
+            fn = bb[0]
+            text = '\n'.join(_u(s) for s in _strip_doc(fn.body))
+            if text not in POWER_WRAPPER_FORMS:
+                raise ExtractionError('power wrapper ({},{}) has an unknown body:\n{}'.format(
+                    n_in, n_out, text))
+            rule, want_args = POWER_WRAPPER_FORMS[text]
+            if _u(fn.args) != want_args:
+                raise ExtractionError('power wrapper ({},{}) signature {}'.format(
+                    n_in, n_out, _u(fn.args)))
+            rules.append((n_in, n_out, rule))
+    reds = []
+    for node in cls.body:
+        if isinstance(node, ast.FunctionDef) and node.name in ('sum', 'prod', 'min', 'max'):
+            b = [_u(x) for x in _strip_doc(node.body)]
+            if _u(node.args) != 'self' or len(b) != 2 or \
+                    b[0] != 'results = [x.ufuncs.{}() for x in self.elem]'.format(node.name) or \
+                    not (b[1].startswith('return np.') and b[1].endswith('(results)')):
+                raise ExtractionError('power reduction {}: {}'.format(node.name, b))
+            reds.append((node.name, b[1][len('return np.'):-len('(results)')]))
+    if sorted(r[0] for r in reds) != ['max', 'min', 'prod', 'sum']:
+        raise ExtractionError('power reductions found: {}'.format(reds))
+    return rules, reds
+
+
 def numpy_table():
     import numpy as np
     out = []
@@ -169,7 +260,7 @@ def numpy_table():
     return out
 
 
-def render(raw, rules, reds, table):
+def render(raw, rules, reds, table, prules, preds):
     L = []
     L.append('/- GENERATED by tools/extract/ufunc_legacy.py from odl/util/ufuncs.py and the live')
     L.append('   NumPy ufunc table. Do not edit; regenerated on every run of ./check C17. -/')
@@ -192,6 +283,16 @@ def render(raw, rules, reds, table):
     L.append('  ' + ', '.join('("{}", "{}", "{}")'.format(a, b, c) for a, b, c in reds))
     L.append(']')
     L.append('')
+    L.append('/-- `wrap_ufunc_productspace`: per `(n_in, n_out)` the wrapper of `ProductSpaceUfuncs`. -/')
+    L.append('def legacyPowerRules : List ((Nat × Nat) × PLegacyRule) := [')
+    L.append('  ' + ', '.join('(({}, {}), {})'.format(a, b, r) for a, b, r in prules))
+    L.append(']')
+    L.append('')
+    L.append('/-- `ProductSpaceUfuncs.sum/…`: component-wise legacy reduction combined by `np.<f>`. -/')
+    L.append('def legacyPowerReductions : List (String × String) := [')
+    L.append('  ' + ', '.join('("{}", "{}")'.format(a, b) for a, b in preds))
+    L.append(']')
+    L.append('')
     L.append('/-- NumPy: `(attribute name np.<name>, ufunc.__name__, nin, nout)`. -/')
     L.append('def npUfuncs : List (String × String × Nat × Nat) := [')
     L.append(',\n'.join('  ("{}", "{}", {}, {})'.format(*t) for t in table))
@@ -206,9 +307,11 @@ def regenerate():
     with open(path) as f:
         src = f.read()
     raw, rules, reds = extract(src)
+    prules, preds = extract_power(src)
     table = numpy_table()
-    text = render(raw, rules, reds, table)
+    text = render(raw, rules, reds, table, prules, preds)
     out = os.path.join(core.LEAN, 'OdlModel', 'Gen', 'UfuncLegacy.lean')
     changed = core.write_if_changed(out, text)
-    return changed, '{} legacy names, {} wrapper rules, {} reductions, {} numpy ufuncs'.format(
-        len(raw), len(rules), len(reds), len(table))
+    return changed, ('{} legacy names, {} wrapper rules, {} reductions, {} product-space rules, '
+                     '{} product-space reductions, {} numpy ufuncs'.format(
+                         len(raw), len(rules), len(reds), len(prules), len(preds), len(table)))
